@@ -34,6 +34,7 @@ import (
 	"github.com/markusmobius/go-domdistiller/internal/domutil"
 	"github.com/markusmobius/go-domdistiller/internal/label"
 	"golang.org/x/net/html"
+	"golang.org/x/net/html/atom"
 )
 
 type Text struct {
@@ -134,7 +135,28 @@ func (t *Text) GenerateOutput(textOnly bool) string {
 		return dom.InnerHTML(clonedRoot)
 	}
 
+	// Parts of a table (cells, rows, captions) are only valid inside a <table>, which is not
+	// emitted for layout tables: a HTML parser drops such tags, which glues the words of
+	// neighbouring cells together. Emit them as block containers instead.
+	replaceTableParts(clonedRoot)
+
 	return dom.OuterHTML(clonedRoot)
+}
+
+func replaceTableParts(node *html.Node) {
+	switch dom.TagName(node) {
+	case "table":
+		return // a complete table is fine as it is
+	case "caption", "thead", "tbody", "tfoot", "tr", "th", "td":
+		node.Data = "div"
+		node.DataAtom = atom.Div
+	}
+
+	for child := node.FirstChild; child != nil; child = child.NextSibling {
+		if child.Type == html.ElementNode {
+			replaceTableParts(child)
+		}
+	}
 }
 
 func (t *Text) AddLabel(s string) {
